@@ -33,6 +33,8 @@ func TestHarness(t *testing.T) {
 		res = runLinks(t, raw)
 	case "pure":
 		res = runPure(t, raw)
+	case "race":
+		res = runRace(t, raw)
 	default:
 		t.Fatalf("unknown mode %q", *flagMode)
 	}
